@@ -32,12 +32,12 @@ import (
 // jpvt specifies a column pivot to be applied to A. On entry, if jpvt[j] is at
 // least zero, the jth column of A is permuted to the front of A*P (a leading
 // column), if jpvt[j] is -1 the jth column of A is a free column. If jpvt[j] <
-// -1, Dgeqp3 will panic. On return, jpvt holds the permutation that was
-// applied; the jth column of A*P was the jpvt[j] column of A. jpvt must have
-// length n or Dgeqp3 will panic.
+// -1 or jpvt[j] >= n, Dgeqp3 will panic. On return, jpvt holds the permutation
+// that was applied; the jth column of A*P was the jpvt[j] column of A. jpvt must
+// have length n or Dgeqp3 will panic.
 //
 // tau holds the scalar factors of the elementary reflectors. It must have
-// length min(m,n), otherwise Dgeqp3 will panic.
+// length at least min(m,n), otherwise Dgeqp3 will panic.
 //
 // work must have length at least max(1,lwork), and lwork must be at least
 // 3*n+1, otherwise Dgeqp3 will panic. For optimal performance lwork must be at
